@@ -42,6 +42,9 @@ TECHNIQUE = 'Lean 4 invariant proof (cache coherence by induction over histories
 MICRO_SETS = {
     'micro-basic': dict(nsteps=30, nfits=2, nuni=1, limited=0, switch=False),
     'micro-projheavy': dict(nsteps=45, nfits=3, nuni=1, switch=False, neff=12, proj_bias=True, prefill=True, nattr=7, limited=0),
+    'micro-fleet': dict(nsteps=40, nfits=3, nuni=1, limited=0, switch=False, fleet=True),
+    'micro-fleetheavy': dict(nsteps=45, nfits=3, nuni=1, limited=0, switch=False, fleet=True, prefill=True,
+                             fleet_bias=True, level_weight=10, fleet_weight=8),
     'micro-switch': dict(nsteps=40, nfits=3, nuni=2, limited=0, disjoint=0.3, switch_weight=5),
     'micro-malformed-decimal': dict(nsteps=60, nfits=2, nuni=2, limited=0, malformed=0.2, dyadic=False),
 }
@@ -63,6 +66,7 @@ def _micro(ctx, rep, n):
                      sample=F.case_of(seed, pname, done[:10]) if k == 0 else None)
             rep.dist['micro_steps'] += st.get('steps', 0)
             rep.dist['micro_cached_entries_compared'] += st.get('cached_entries', 0)
+            rep.dist['micro_buff_registrations_compared_with_spec'] += st.get('buff_registrations_compared', 0)
             if dis:
                 def fails(ops, where=dis['where']):
                     d2 = MC.check(seed, p, ops)[1]
@@ -85,9 +89,10 @@ def _micro(ctx, rep, n):
 def correspondence(ctx):
     rep = ctx.report
     rep.rules.append(RULE)
-    _micro(ctx, rep, ctx.n(60, 1500))
+    _micro(ctx, rep, ctx.n(45, 1200))
     k = ctx.n(1, 20)
-    n = {'basic': 40 * k, 'three-fits-decimal': 30 * k, 'fleet': 40 * k, 'long': 25 * k, 'projheavy': 90 * k}
+    n = {'basic': 40 * k, 'three-fits-decimal': 30 * k, 'fleet': 25 * k, 'fleetheavy': 25 * k, 'long': 25 * k,
+         'projheavy': 90 * k}
     F.histories(ctx, rep, list(n), n, 'corr')
 
 
